@@ -29,6 +29,7 @@
 #include <unistd.h>
 
 #include <map>
+#include <set>
 #include <sstream>
 
 using namespace iora::network;
@@ -323,6 +324,79 @@ void history(int depth, bool edge)
   if (simk_open_fds() != 0)
     mc_violation("harness-internal", "fd-leak", std::to_string(simk_open_fds()) + " simulated descriptors left open");
 }
+
+// A burst of datagrams that are ALL pending when the engine wakes once: every one of them must be delivered while the
+// session stays open (a per-wake read limit without re-arm strands the rest until some later datagram happens to arrive).
+void burst(int n, bool edge, bool twoPeers)
+{
+  mc_label("main:udp-burst");
+  simk_cfg.udpQueue = 128;
+  TransportConfig cfg;
+  cfg.useEdgeTriggered = edge;
+  cfg.enableHighResolutionTimers = false;
+  cfg.idleTimeout = std::chrono::seconds(30);
+  cfg.gcInterval = std::chrono::seconds(10);
+  auto t = Transport::udp(cfg);
+  std::vector<Ev> evs;
+  t->onAccept([&](SessionId s, const TransportAddress &) { evs.push_back({'A', s, ""}); });
+  t->onData([&](SessionId s, iora::core::BufferView d, std::chrono::steady_clock::time_point) { evs.push_back({'D', s, std::string((const char *)d.data(), d.size())}); });
+  t->onClose([&](SessionId s, const TransportErrorInfo &) { evs.push_back({'X', s, ""}); });
+  if (t->start().isErr())
+    mc_violation("harness-internal", "start", "start failed");
+  if (t->addListener("127.0.0.1", 7000, TlsMode::None).isErr())
+    mc_violation("harness-internal", "listener", "addListener failed");
+  int p[2];
+  for (int i = 0; i < 2; ++i)
+  {
+    p[i] = ::socket(AF_INET, SOCK_DGRAM | SOCK_NONBLOCK, 0);
+    sockaddr_in a = addr("127.0.0.1", uint16_t(7001 + i));
+    ::bind(p[i], (sockaddr *)&a, sizeof a);
+  }
+  sockaddr_in L = addr("127.0.0.1", 7000);
+  mc_quiesce();
+  std::vector<std::string> sent;
+  for (int i = 0; i < n; ++i)
+  {
+    std::string pl = "d" + std::to_string(i);
+    int from = twoPeers ? (i & 1) : 0;
+    if (::sendto(p[from], pl.data(), pl.size(), 0, (sockaddr *)&L, sizeof L) != ssize_t(pl.size()))
+      mc_violation("harness-internal", "burst-send", "simulated sendto failed");
+    sent.push_back(pl);
+  }
+  mc_quiesce(5ull * 1000000ull);
+  mc_quiesce(5ull * 1000000ull);
+  std::multiset<std::string> got;
+  size_t accepts = 0, closes = 0;
+  for (auto &e : evs)
+  {
+    if (e.kind == 'D')
+      got.insert(e.data);
+    else if (e.kind == 'A')
+      ++accepts;
+    else if (e.kind == 'X')
+      ++closes;
+  }
+  mc_obs("burst n=%d delivered=%zu accepts=%zu closes=%zu", n, got.size(), accepts, closes);
+  size_t missing = 0, dup = 0;
+  for (auto &pl : sent)
+  {
+    if (got.count(pl) == 0)
+      ++missing;
+    else if (got.count(pl) > 1)
+      ++dup;
+  }
+  if (dup)
+    mc_violation("one-event-per-datagram", "burst:duplicated", std::to_string(dup) + " of " + std::to_string(n) + " datagrams delivered more than once");
+  if (missing && closes == 0)
+    mc_violation("one-event-per-datagram", "burst:datagrams-never-delivered", std::to_string(missing) + " of " + std::to_string(n) +
+                 " datagrams that were pending at one wake-up were never delivered although the session stayed open and the transport kept running");
+  if (accepts != size_t(twoPeers ? 2 : 1))
+    mc_violation("right-session", "burst:accept-count", std::to_string(accepts) + " accepts for " + std::to_string(twoPeers ? 2 : 1) + " peer(s)");
+  for (int i = 0; i < 2; ++i)
+    ::close(p[i]);
+  t->stop();
+  t.reset();
+}
 } // namespace
 
 int main(int argc, char **argv)
@@ -341,6 +415,19 @@ int main(int argc, char **argv)
     m.body = [depth, edge]() { history(depth, edge != 0); };
     m.quick.S = 0;
     m.thorough.S = 0;
+    m.horizon_s = 600;
+    v.push_back(m);
+  }
+  for (int k = 0; k < 4; ++k)
+  {
+    McScenario m;
+    bool edge = (k & 1) == 0, two = k >= 2;
+    m.name = std::string("burst40_") + (edge ? "et" : "lt") + (two ? "_two_peers" : "");
+    m.body = [edge, two]() { burst(40, edge, two); };
+    m.quick.S = 0;
+    m.quick.P = 1;
+    m.thorough.S = 1;
+    m.thorough.P = 2;
     m.horizon_s = 600;
     v.push_back(m);
   }
